@@ -409,7 +409,7 @@ func run(c Sx) Result {
 	}
 	src := buildSource(f[1], f[2])
 	events, script := sxList(f[3]), sxList(f[4])
-	if len(events) != len(script) || len(script) == 0 {
+	if len(script) == 0 || len(events) == 0 {
 		panic("hxlib: events/script length")
 	}
 	if src.root == types.EmptyRootHash {
@@ -436,6 +436,11 @@ func runOnce(cfg config, src *source, events, script SL) (res Result, retry bool
 			if de, ok := e.(desyncError); ok {
 				// the recorded trace does not fit the real run: a malformed (e.g. shrunk)
 				// case, or harness nondeterminism
+				if len(s.d.oracle) > 0 {
+					// the property already failed on the real code before the trace stopped fitting
+					res = Result{Obs: L(I(-8)), Oracle: s.d.oracle[0], Tags: []string{"failed-before-desync"}, NonTrivial: true}
+					return
+				}
 				res = Result{Obs: L(I(-9)), Oracle: "harness shape error: replay desync: " + de.msg}
 				retry = true
 				return
@@ -453,13 +458,24 @@ func runOnce(cfg config, src *source, events, script SL) (res Result, retry bool
 		if (e.kind == 6) != s.snapDone() && e.kind != 5 && e.kind != 4 {
 			desync("entry %d: completion mismatch (script kind %d, snap done %v)", i, e.kind, s.snapDone())
 		}
+		if i >= len(events) {
+			panic("hxlib: events shorter than script")
+		}
 		over = s.step(e)
 		if String(s.events[i]) != String(events[i]) {
 			desync("entry %d: recorded event %s, re-derived %s", i, trunc(String(events[i])), trunc(String(s.events[i])))
 		}
+		if len(s.d.oracle) > 0 && !over {
+			// stop at the first direct oracle failure: whatever follows in the case is irrelevant
+			// (lets the shrinker cut the tails of events and script independently)
+			return Result{Obs: L(I(-8)), Oracle: s.d.oracle[0], Tags: []string{"stopped-at-first-failure"}, NonTrivial: true}, false
+		}
 	}
 	if !over {
 		panic("hxlib: script has no end")
+	}
+	if len(events) != len(script) {
+		panic("hxlib: events/script length")
 	}
 	d := s.d
 	tags := []string{fmt.Sprintf("scheme=%s", d.scheme), fmt.Sprintf("accounts<=%d", bucket(len(src.Accounts))), fmt.Sprintf("events<=%d", bucket(len(script))),
